@@ -20,6 +20,9 @@ Only the ion-association clause has parts whose truth is in the shape of the cod
                is 1 + 2 OSMOT/OSUM (Pitzer) resp. 1 + OSMOT ln10/OSUM (SIT), the water activity is exp(-OSUM COSMOT/55.50837), and
                OSUM - the total solute molality - is accumulated as + M[i] over the list that the model's make_lists routine
                fills with EVERY solute present (the push that is not conditional on the charge class), not over a sub-list
+  C16.present  Pitzer: pitzer_make_lists may list a species that is not in the current model (the MacInnes reference ion is listed
+               under `ICON == TRUE && i == IC`), so every place that loads a molality M[i] from species::lm tests species::in:
+               otherwise a solution without that ion inherits a phantom molality from an earlier calculation
 Not decided: the values of A, B and the ionic strength, the exchange and surface conventions (cases 4 and 6), Pitzer and SIT
 sums, Gibbs-Duhem consistency, water activity (all numerical).
 """
@@ -87,6 +90,7 @@ def run(P, R, tier):
     R.undecided += ["values of the Debye-Hueckel constants and of the ionic strength at which the formulas are evaluated",
                     "exchange and surface activity conventions (gflag 4, 6)", "Pitzer and SIT excess-energy sums, Gibbs-Duhem consistency, water activity / osmotic coefficient"]
     water_rule(P, R)
+    present_rule(P, R)
     # ------------------------------------------------------------------ writers of gflag
     R.rule("C16.cases", "every activity-model number assigned to species::gflag has a case in every switch over gflag", minimum=40)
     written = {}
@@ -326,6 +330,35 @@ def water_rule(P, R):
             R.ok("C16.water", model + ":water-activity", "AW = exp(-OSUM COSMOT / 55.50837)")
         else:
             R.violation("C16.water", model + ":water-activity", "`AW = %s` is not exp(-OSUM COSMOT / 55.50837)" % aw_ok[2][:80], line=aw_ok[1], **where)
+
+
+def present_rule(P, R):
+    R.rule("C16.present", "Pitzer: every load of a molality from species::lm is conditional on species::in", minimum=2)
+    n = 0
+    for q in ("Phreeqc::pitzer", "Phreeqc::pitzer_make_lists"):
+        for f in P.fns_named(q):
+            def rec(nd, guards):
+                nonlocal n
+                if not T.is_node(nd):
+                    return
+                if nd[0] == "If":
+                    rec(nd[3], guards + [nd[2]])
+                    rec(nd[4], guards)
+                    return
+                if nd[0] == "Bin" and nd[2] == "=" and any(y[0] == "Member" and y[2].split("::")[-1] == "M" for y in T.walk(nd[3])) and any(y[0] == "Member" and y[2] == "species::lm" for y in T.walk(nd[4])):
+                    n += 1
+                    inst = "%s@%d" % (f["q"].split("::")[-1], nd[1])
+                    if any(y[0] == "Member" and y[2] == "species::in" for g_ in guards for y in T.walk(g_)):
+                        R.ok("C16.present", inst, "guarded by species::in")
+                    else:
+                        R.violation("C16.present", inst, "the molality of a listed species is loaded without testing species::in: the MacInnes reference ion, listed even when absent, "
+                                    "contributes the molality of an earlier calculation", file=f["file"], line=nd[1], function=f["q"])
+                    return
+                for c in T.children(nd):
+                    rec(c, guards)
+            rec(f["body"], [])
+    if n < 2:
+        R.anchor_missing("C16.present", "fewer than 2 molality loads found in pitzer / pitzer_make_lists (%d)" % n)
 
 
 def enclosing_list(body, node):
